@@ -123,9 +123,31 @@ func consumer(which string, d []byte) (string, string) {
 			return dec.Decode(&r2) == io.EOF
 		}
 		return b01(f(json.NewDecoder(bytes.NewReader(d)))), b01(f(stdjson.NewDecoder(bytes.NewReader(d))))
+	case "declong": // framing by Decoder after a first value that fills the read buffer with escape-free printable ASCII:
+		// d is the SECOND value of the stream; flags computed on one buffer fill must not survive the refill
+		f := func(dec interface{ Decode(any) error }) string {
+			var r stdjson.RawMessage
+			if dec.Decode(&r) != nil {
+				return "first-rejected"
+			}
+			var r2 stdjson.RawMessage
+			if dec.Decode(&r2) != nil {
+				return "0"
+			}
+			var r3 stdjson.RawMessage
+			if dec.Decode(&r3) != io.EOF {
+				return "0"
+			}
+			return "1"
+		}
+		stream := append(append(append([]byte{'"'}, bytes.Repeat([]byte{'a'}, declongPad)...), '"', ' '), d...)
+		return f(json.NewDecoder(bytes.NewReader(stream))), f(stdjson.NewDecoder(bytes.NewReader(stream)))
 	}
 	panic("unknown consumer " + which)
 }
+
+// declongPad + 3 bytes precede the second value: it starts right after a 32 KiB buffer fill
+var declongPad = 32768 - 3
 
 var directConsumers = []string{"rawenc", "rawencptr", "marshaler", "rawdec", "decoder"}
 
@@ -155,6 +177,13 @@ func runC05(h *H) {
 			}
 			if sample {
 				h.Case("json.consumer", []string{c, hx(d)}, i, oo)
+			}
+		}
+		if sample || sampleEvery == 7 {
+			i, oo := consumer("declong", d)
+			calls++
+			if i != oo {
+				h.Fail("json.consumer", []string{"declong", hx(d)}, i, oo)
 			}
 		}
 		// composites
